@@ -210,6 +210,12 @@ func c14ExitCode(c *Check, a *Anchors) {
 					cell = varOf(info, u.X)
 				}
 			}
+			// `defer deferred.run(i)`: the runner is a method of a per-execution object of the task body that holds the code
+			if sel, ok := ast.Unparen(d.Call.Fun).(*ast.SelectorExpr); ok && cell == nil {
+				if v := varOf(info, sel.X); v != nil && !v.IsField() && body.Body.Pos() <= v.Pos() && v.Pos() <= body.Body.End() {
+					cell = v
+				}
+			}
 		}
 		return true
 	})
@@ -242,7 +248,7 @@ func c14ExitCode(c *Check, a *Anchors) {
 	}
 	pe := &PathEnum{Fn: fn, MaxRevisit: revisit(), EventR: func(in ssa.Instruction, resolve func(ssa.Value) ssa.Value) (string, string) {
 		// (the store may be made by a helper of the package through a pointer parameter bound to the cell)
-		if st, ok := in.(*ssa.Store); ok && (st.Addr == cellAlloc || resolve(st.Addr) == cellAlloc) {
+		if st, ok := in.(*ssa.Store); ok && (st.Addr == cellAlloc || resolve(st.Addr) == cellAlloc || intFieldOf(st.Addr, cellAlloc, resolve)) {
 			if c, isConst := st.Val.(*ssa.Const); isConst && c.Value != nil && c.Value.ExactString() == "0" {
 				return "", "" // zero initialisation
 			}
@@ -396,4 +402,18 @@ func c14DeferCachePerEntry(c *Check, a *Anchors) {
 		}
 	}
 	c.Floor("defer-cache-per-entry", n, 1)
+}
+
+// intFieldOf: addr is the address of an integer field of the object cell points to (`failure.exitCode`, `deferred.exitCode`).
+func intFieldOf(addr, cell ssa.Value, resolve func(ssa.Value) ssa.Value) bool {
+	fa, ok := addr.(*ssa.FieldAddr)
+	if !ok || (fa.X != cell && resolve(fa.X) != cell) {
+		return false
+	}
+	pt, ok := fa.Type().Underlying().(*types.Pointer)
+	if !ok {
+		return false
+	}
+	b, ok := pt.Elem().Underlying().(*types.Basic)
+	return ok && b.Info()&types.IsInteger != 0
 }
